@@ -51,6 +51,13 @@ var ctxQuickShapes = map[string]bool{
 }
 
 func buildCases(shapes []shape, thorough bool) (cases []caseSpec, notApplicable, prewarm, ctxExt int) {
+	for _, e := range engines { // shared-cache environment dimension (envdim.go)
+		for _, sc := range envScenarios() {
+			for _, c := range envCauses {
+				cases = append(cases, caseSpec{Shape: envShape, Engine: e, Cause: c, Moment: 1, Env: sc})
+			}
+		}
+	}
 	for _, sh := range shapes {
 		if sh.Family == "hist" { // call history on one cached api.Function
 			for _, e := range engines {
@@ -147,7 +154,7 @@ func makePlan(thorough bool) *plan {
 		switch {
 		case c.Hist != "" && c.Engine == "compiler" && strings.Contains(c.Hist, "E-overflow"):
 			p.phases["deep"] = append(p.phases["deep"], i) // 400 MB call stack: few at a time
-		case c.Hist != "":
+		case c.Hist != "" || c.Env != "":
 			p.phases["hist"] = append(p.phases["hist"], i)
 		case c.Conc != "":
 			// one worker per case: if the module is never closed every such case waits its 20 s bound (or
@@ -291,6 +298,11 @@ func main() {
 	var evals, running, armedCases, earlyDeadline, hangs, oneIter int64
 	hangOnInterp := map[string]bool{}
 	phaseWall := map[string]float64{}
+	// directory caches of the shared-cache dimension live under one temp root, removed before the run ends
+	tmpRoot, err := os.MkdirTemp("", "verif-c07-")
+	if err != nil {
+		fw.Fatalf("%v", err)
+	}
 	var mu sync.Mutex
 	var dump *os.File // VERIF_C07_DUMP=<file>: one line per case (debugging aid, not evidence)
 	if f := os.Getenv("VERIF_C07_DUMP"); f != "" {
@@ -340,6 +352,9 @@ func main() {
 					if c.Conc != "" {
 						hsig += ":" + c.Conc
 					}
+					if c.Env != "" {
+						hsig += ":shared-cache:" + c.Env
+					}
 					if c.Hist != "" {
 						hsig += ":history[" + c.Hist + "]"
 					}
@@ -370,6 +385,9 @@ func main() {
 				sig := fmt.Sprintf("%s:%s:%s:%s:%s-cycle", strings.TrimPrefix(out, "bad:"), c.Engine, c.Cause, momentKind(c.Moment), sh.Class)
 				if c.Conc != "" {
 					sig += ":concurrent:" + c.Conc
+				}
+				if c.Env != "" {
+					sig += ":shared-cache:" + c.Env
 				}
 				if c.Hist != "" {
 					sig = fmt.Sprintf("%s:%s:history[%s]", strings.TrimPrefix(out, "bad:"), c.Engine, c.Hist)
@@ -402,7 +420,7 @@ func main() {
 				t0 := time.Now()
 				done := fw.Supervise(fw.SupOpts{
 					N: len(idxs), Workers: p.workers[ph], CaseTimeout: caseTimeout, UlimitVKB: 8 << 20, Mode: ph,
-					Env:  []string{"GOMAXPROCS=4"},
+					Env:  []string{"GOMAXPROCS=4", "C07_TMP=" + tmpRoot},
 					Stop: func() bool { return run.Expired() || run.Violations() >= violationLimit },
 				}, onResult(idxs))
 				mu.Lock()
@@ -445,7 +463,7 @@ func main() {
 		"shapes": len(p.shapes), "shapes_per_family": fam, "engines": engines, "causes": baseCauses, "context_causes_extended": ctxCauses, "context_cause_cases": p.ctxExt, "moments": []string{"before-call", "after-iteration-1", "after-iteration-3"},
 		"product_cases": len(p.cases) - p.prewarm - p.ctxExt, "prewarmed_cache_cases": p.prewarm, "not_applicable": p.na, "grammar_programs_run_dynamically": p.grammar,
 		"ticks_per_guest": nTicks, "hang_watchdog_s": hangAfter.Seconds(), "supervisor_fallback_watchdog_s": caseTimeout.Seconds(), "phase_wall_s": phaseWall,
-		"concurrency_scenarios": concScenarios, "concurrency_causes": concCauses,
+		"shared_cache_scenarios": len(envScenarios()), "shared_cache_cases": 2 * len(envScenarios()) * len(envCauses), "concurrency_scenarios": concScenarios, "concurrency_causes": concCauses,
 		"phase_cases": map[string]int{"hist": len(p.phases["hist"]), "conc": len(p.phases["conc"]), "tail": len(p.phases["tail"]), "deep": len(p.phases["deep"]), "main": len(p.phases["main"])},
 	}
 	extra := map[string]any{
@@ -460,6 +478,7 @@ func main() {
 	}
 	extra["structural_grammar"] = gram
 	sProgs += gram.Programs
+	os.RemoveAll(tmpRoot)
 	run.Finish(fw.Coverage{
 		Evaluations: evals + sProgs, DistinctNontriv: running,
 		Rule:    "one evaluation = one (shape, engine, cause, moment) case executed on the real runtime in a child process, or one program analysed structurally; non-trivial = executed dynamic cases in which the cause arrives while the guest is inside its cycle (moment after iteration 1 or 3; counted as results come back from the children; how many of them fired exactly at the chosen tick with the close observed is reported separately); all cases are distinct by construction",
